@@ -24,6 +24,9 @@ type World struct {
 	Chain   uint64
 	Network uint64
 	Peer    uint64 // the other chain of a two-chain setup (target of dex operations); 0 = none
+	// Committees a (re-)staking validator serves; nil = {Chain}. The root chain of a two-chain setup uses {root, nested}:
+	// an edit-stake must not silently drop the nested committee
+	Committees []uint64
 	// OpenOrders (optional, set by the check) returns the ids of the open, unlocked sell orders buyers on THIS chain can
 	// lock (own-root chain: the chain's own book; nested chain: the root chain's book for this committee)
 	OpenOrders func() [][]byte
@@ -133,6 +136,13 @@ func (w *World) Genesis(blockSize uint64) *fsm.GenesisState {
 	return chainsim.BuildGenesis(w.Chain, w.ValSpecs(), w.AcctSpecs(), nil, p)
 }
 
+func (w *World) committees() []uint64 {
+	if w.Committees != nil {
+		return w.Committees
+	}
+	return []uint64{w.Chain}
+}
+
 // Tick returns a fresh deterministic transaction time.
 func (w *World) Tick() uint64 { w.clock += 1000; return w.clock }
 
@@ -210,14 +220,14 @@ func (w *World) GenTx(t *rapid.T, height uint64, kinds []string) []Tx {
 			intent = "fail-state"
 		}
 		w.staked[i] = true
-		return one(w.sign(k, &fsm.MessageStake{PublicKey: k.PublicKey().Bytes(), Amount: amt, Committees: []uint64{w.Chain}, NetAddress: "tcp://127.0.0.1", OutputAddress: chainsim.Addr(k)}, fee, height, w.Chain, ""),
+		return one(w.sign(k, &fsm.MessageStake{PublicKey: k.PublicKey().Bytes(), Amount: amt, Committees: w.committees(), NetAddress: "tcp://127.0.0.1", OutputAddress: chainsim.Addr(k)}, fee, height, w.Chain, ""),
 			intent, fmt.Sprintf("stake bls%d %d", i, amt))
 	case "edit-stake-up":
 		i := rapid.IntRange(0, w.NVals-1).Draw(t, "val")
 		k := keys.BLS(i)
 		amt := w.Stakes[i] + uint64(rapid.IntRange(1, 5).Draw(t, "inc"))*w.Stakes[0]
 		w.Stakes[i] = amt
-		return one(w.sign(k, &fsm.MessageEditStake{Address: chainsim.Addr(k), Amount: amt, Committees: []uint64{w.Chain}, NetAddress: "tcp://127.0.0.1", OutputAddress: chainsim.Addr(k)}, fee, height, w.Chain, ""),
+		return one(w.sign(k, &fsm.MessageEditStake{Address: chainsim.Addr(k), Amount: amt, Committees: w.committees(), NetAddress: "tcp://127.0.0.1", OutputAddress: chainsim.Addr(k)}, fee, height, w.Chain, ""),
 			"ok", fmt.Sprintf("edit-stake bls%d ->%d", i, amt))
 	case "pause", "unpause", "unstake":
 		// validators 0 and 1 never pause or unstake: a generated mix must not empty the committee (then no chain exists)
